@@ -217,6 +217,21 @@ class Ctx(list):
     def __init__(self):
         list.__init__(self)
         self.kl = []
+        self.tmpdir = None
+        self.nfiles = 0
+    def tmp(self):
+        """one temporary directory per history (directory operations are the slowest thing the wrapper does)"""
+        if self.tmpdir is None:
+            self.tmpdir = tempfile.mkdtemp(prefix='c18_')
+        self.nfiles += 1
+        d = os.path.join(self.tmpdir, 'd%d' % self.nfiles)
+        os.mkdir(d)
+        return d
+    def close(self):
+        if self.tmpdir:
+            shutil.rmtree(self.tmpdir, ignore_errors=True)
+        if self.env is not None:
+            self.env.close()
 
 _REC = {}
 def _rec_parser():
@@ -291,7 +306,7 @@ def _exec(readers, o, use_files):
     tmpd = []
     def tmp():
         if not tmpd:
-            tmpd.append(tempfile.mkdtemp(prefix='c18_'))
+            tmpd.append(readers.tmp())
         return tmpd[0]
     try:
         if t == 0:
@@ -357,8 +372,7 @@ def _exec(readers, o, use_files):
             return [0]
         return _opaque(readers, o[2])
     finally:
-        if tmpd:
-            shutil.rmtree(tmpd[0], ignore_errors=True)
+        pass          # the history's directory is removed when the history is over (Ctx.close)
 
 def _step(readers, o, use_files):
     """one call, optionally inside errors.capture(); -> [value-or-exception, n warnings printed, captured]"""
@@ -398,17 +412,22 @@ def _final():
             bool(E.strict), E.error_code, E.captured_errors is None]
 
 def impl_history(arg):
-    with _Watchdog(20):
-        return _impl_history(arg)
+    ctxs = []
+    try:
+        with _Watchdog(20):
+            return _impl_history(arg, ctxs)
+    finally:
+        for c in ctxs:
+            c.close()
 
-def _impl_history(arg):
+def _impl_history(arg, ctxs):
     import pybtex.errors as E
     arg = fix_arg(2, arg)
     cap, ops = arg[0], arg[1]
     use_files = (len(sx(ops)) % 16 == 0)
     _reset(cap)
     readers = Ctx()
-    ctxs = [readers]
+    ctxs.append(readers)
     outs, modes = [], []
     for o in ops:
         modes.append(bool(E.strict))
@@ -428,9 +447,6 @@ def _impl_history(arg):
             base.append([memo[key]])
         else:
             base.append([])
-    for c in ctxs:
-        if c.env is not None:
-            c.env.close()
     _reset(None)
     return norm([outs, fin, base, _live_capacity()[0] or 0])
 
@@ -984,7 +1000,7 @@ def gen(tier, rng):
 
 RULE = ('fn 1 (memoize): every key sequence up to the length bound over 4 keys (two returning, one raising a pybtex error, one raising a foreign exception) x capacities 0..3, plus random runs up to capacity 1024 with more distinct keys than the capacity; '
         'fn 2 (API histories): pinned defect inputs, a history with 1100 fresh format.name$ calls at the shipped capacity, every history of length <= 2 over a menu of 20 calls (keyless and person_fields readers included) (incl. two opaque writer/engine calls; each also inside errors.capture(), plus set_strict_mode on/off; 41 in all) and every second one of length 3 (thorough: all, and every seventh one of length 4) over the 20 of them that are neither capture() variants nor opaque, cache capacity 2 (thorough: length 3 over all 41), a stream where an earlier reader defines/redefines macros through each of the 7 parse entry points (and a live reader, and LowLevelParser) before independent probe parses through each entry point, and random histories up to length 16 (thorough: 40); every self-contained call is also re-run alone in a reset process state. '
-        'fn 3 (real engines as ordinary cases): 188 calls = Python engine x {unsrt, plain, alpha, unsrtalpha} x 5 option sets (back ends latex/html/text/markdown, abbreviate_names, name/label/sorting styles) x 4 databases (duplicate alpha labels; one entry type with different editor/author/field patterns; cross-references; missing required fields = failing runs), also inside capture(); BibTeX engine x the 7 shipped .bst; writers 3 formats x {str, utf-8, latin-1, ascii}; readers; each selected call twice, after the same style on another database, and in mixed histories (quick: a rotating selection, thorough: all); every result compared with the same call in its own forked child of a pristine interpreter under another hash seed. '
+        'fn 3 (real engines as ordinary cases): 220 calls = generated .bst styles (same name in another working directory, file rewritten between runs, other bst_encoding), object histories (one parsed database object through add_extra_citations / format_bibliography / writers / lower / pickle, each result compared with a freshly parsed copy), and Python engine x {unsrt, plain, alpha, unsrtalpha} x 5 option sets (back ends latex/html/text/markdown, abbreviate_names, name/label/sorting styles) x 4 databases (duplicate alpha labels; one entry type with different editor/author/field patterns; cross-references; missing required fields = failing runs), also inside capture(); BibTeX engine x the 7 shipped .bst; writers 3 formats x {str, utf-8, latin-1, ascii}; readers; each selected call twice, after the same style on another database, and in mixed histories (quick: a rotating selection, thorough: all); every result compared with the same call in its own forked child of a pristine interpreter under another hash seed. '
         'distinct = distinct (function, argument); non-trivial = more distinct keys than the capacity (fn 1) / at least two kinds of call (fn 2)')
 EXHAUSTIVE = {'quick': 'memoize: all key sequences of length <= 6 over 4 keys x capacities 0..3; API histories: all sequences of length <= 2 over the 41-call menu, all of length 3 over its 20-call core (the calls outside capture())',
               'thorough': 'memoize: all key sequences of length <= 7 over 4 keys x capacities 0..3; API histories: all sequences of length <= 3 over the 41-call menu, every seventh one of length 4 over its 20-call core (the calls outside capture())'}
@@ -1534,14 +1550,133 @@ def _engine_calls():
                 calls.append(('write', dn, fmt, enc, 0))
             calls.append(('read', dn, fmt, None, 0))
     return calls
-ENGINE_CALLS = _engine_calls()
+
+# ---- generated .bst files (a style is identified by what its file says NOW, under the encoding asked for, in the
+#      directory it is resolved in) and object histories (one parsed database object used for several calls)
+GEN_BST = """ENTRY { title } { } { label }
+FUNCTION {misc} { "%s " title * write$ newline$ }
+READ
+ITERATE {call.type$}
+"""
+GEN_BIB = '@misc{k, title = {T}}\n'
+O_BIB = r'''@inproceedings{a, author = {Ann Lee}, title = {Paper A}, crossref = {conf}, pages = {1--2}}
+@inproceedings{b, author = {Bob Ray}, title = {Paper B}, crossref = {conf}, pages = {3--4}}
+@inproceedings{c, author = {Cy Moe}, title = {Paper C}, crossref = {conf2}}
+@InProceedings{D, author = {Di Noe}, title = {Paper D}, crossref = {conf2}}
+@proceedings{conf, editor = {Ed Itor}, title = {Conference One}, booktitle = {Proc. One}, year = 2001, publisher = {P}}
+@proceedings{conf2, editor = {Flo Poe}, title = {Conference Two}, booktitle = {Proc. Two}, year = 2002, publisher = {P}}
+@article{e, author = {Gus Roe}, title = {Alone}, journal = {J}, year = 2003}
+'''
+def _obj_subcalls():
+    subs = []
+    for cits in (['a'], ['b'], ['a', 'b'], ['c'], ['c', 'D'], ['a', 'c', 'e'], ['*']):
+        for mc in (1, 2, 3):
+            subs.append(('extra', cits, mc))
+    for st in ('unsrt', 'alpha'):
+        for cits in (['a'], ['b'], ['a', 'b'], ['c', 'e'], None):
+            for mc in (1, 2):
+                subs.append(('format', st, cits, mc))
+    for fmt in ('bibtex', 'yaml', 'bibtexml'):
+        subs.append(('write', fmt, None)); subs.append(('write', fmt, 'utf-8'))
+    subs += [('lower',), ('pickle',), ('eq',), ('repr',)]
+    return subs
+OBJ_SUBCALLS = _obj_subcalls()
+def _obj_histories():
+    r = random.Random(18)
+    ex = [i for i, c in enumerate(OBJ_SUBCALLS) if c[0] == 'extra']
+    fm = [i for i, c in enumerate(OBJ_SUBCALLS) if c[0] == 'format']
+    idx = lambda c: OBJ_SUBCALLS.index(c)
+    hs = [[idx(('extra', ['a'], 2)), idx(('extra', ['b'], 2))],
+          [idx(('format', 'unsrt', ['a'], 2)), idx(('format', 'unsrt', ['b'], 2))],
+          [idx(('extra', ['c'], 2)), idx(('format', 'alpha', ['a'], 2)), idx(('extra', ['c', 'D'], 3)), idx(('extra', ['c'], 2))],
+          [idx(('format', 'unsrt', None, 2)), idx(('write', 'bibtex', None)), idx(('lower',)), idx(('pickle',)), idx(('extra', ['a'], 2))]]
+    for k in range(20):
+        hs.append([r.choice(ex + fm) if r.random() < 0.7 else r.randrange(len(OBJ_SUBCALLS)) for _ in range(r.choice([2, 3, 4, 6]))])
+    return hs
+OBJ_HISTORIES = _obj_histories()
+GEN_SCENARIOS = [('cwd', 0), ('cwd', 1), ('cwd', 2), ('rewrite', 0), ('rewrite', 1), ('encoding', 'latin-1'), ('encoding', 'cp1251'), ('encoding', 'cp437')]
+ENGINE_CALLS = _engine_calls() + [('genbst', sc, v, None, 0) for sc, v in GEN_SCENARIOS] + [('obj', 'O', k, None, 0) for k in range(len(OBJ_HISTORIES))]
+
+def _obj_apply(db, sub):
+    """one call on a database object -> a printable result"""
+    import pickle
+    from pybtex.plugin import find_plugin
+    from pybtex.database import parse_string
+    k = sub[0]
+    if k == 'extra':
+        return list(db.add_extra_citations(list(sub[1]), sub[2]))
+    if k == 'format':
+        style = find_plugin('pybtex.style.formatting', sub[1])(min_crossrefs=sub[3])
+        fb = style.format_bibliography(db, None if sub[2] is None else list(sub[2]))
+        out = io.StringIO()
+        find_plugin('pybtex.backends', 'text')().write_to_stream(fb, out)
+        return out.getvalue()
+    if k == 'write':
+        return db.to_string(sub[1]) if sub[2] is None else db.to_bytes(sub[1], encoding=sub[2])
+    if k == 'lower':
+        return _db_snapshot(db.lower())
+    if k == 'pickle':
+        return _db_snapshot(pickle.loads(pickle.dumps(db)))
+    if k == 'eq':
+        return db == parse_string(O_BIB, 'bibtex')
+    return repr(db)
+
+def _run_obj(hist):
+    """ONE parsed database object through the calls of the history; each result must be what the same call gives on a
+    freshly parsed copy of the source (the object was used, not modified -- also not invisibly)"""
+    from pybtex.database import parse_string
+    db = parse_string(O_BIB, 'bibtex')
+    res = []
+    for pos, si in enumerate(hist):
+        sub = OBJ_SUBCALLS[si]
+        got = call_impl(_obj_apply, db, sub)
+        want = call_impl(_obj_apply, parse_string(O_BIB, 'bibtex'), sub)
+        if got != want:
+            return 'BAD call %d of the object history, %r: on the used object it gives %s, on a freshly parsed copy %s' % (
+                pos, sub, S(got[1])[:120] if got[0] == 0 and isinstance(got[1], list) else got, S(want[1])[:120] if want[0] == 0 and isinstance(want[1], list) else want)
+        res.append(got)
+    return res
+
+def _run_genbst(scenario, v):
+    import pybtex.bibtex
+    d = tempfile.mkdtemp(prefix='c18_bst_')
+    cwd = os.getcwd()
+    try:
+        os.chdir(d)
+        if scenario == 'cwd':          # 'house.bst' resolved in the working directory: every call has its own directory and text
+            with open('house.bst', 'w') as f:
+                f.write(GEN_BST % ('variant%d' % v))
+            out = pybtex.bibtex.format_from_string(GEN_BIB, style='house')
+            return out if 'variant%d T' % v in out else 'BAD the style in this directory writes variant%d, the run printed %r' % (v, out)
+        if scenario == 'rewrite':      # the same path, rewritten between two runs
+            outs = []
+            for k in (v, v + 5, v):
+                with open('rw.bst', 'w') as f:
+                    f.write(GEN_BST % ('text%d' % k))
+                outs.append(pybtex.bibtex.format_from_string(GEN_BIB, style=os.path.join(d, 'rw')))
+                if 'text%d T' % k not in outs[-1]:
+                    return 'BAD the style file was rewritten to print text%d, the run printed %r' % (k, outs[-1])
+            return outs
+        # the same bytes read under the encoding asked for
+        with open('enc.bst', 'wb') as f:
+            f.write((GEN_BST % 'X@X').encode('ascii').replace(b'@', b'\xe9'))
+        out = pybtex.bibtex.format_from_string(GEN_BIB, style='enc', bst_encoding=v)
+        want = b'\xe9'.decode(v)
+        return out if 'X%sX T' % want in out else 'BAD read with bst_encoding=%s the literal is X%sX, the run printed %r' % (v, want, out)
+    finally:
+        os.chdir(cwd)
+        shutil.rmtree(d, ignore_errors=True)
 
 def _engine_run(cid):
     import pybtex, pybtex.bibtex, pybtex.errors as E, pybtex.io
     from pybtex.database import parse_string
     kind, dn, a, b, cap = ENGINE_CALLS[cid % len(ENGINE_CALLS)]
-    text = dict(ENGINE_DBS)[dn]
+    text = dict(ENGINE_DBS).get(dn)
     def body():
+        if kind == 'genbst':
+            return _run_genbst(dn, a)
+        if kind == 'obj':
+            return _run_obj(OBJ_HISTORIES[a])
         if kind == 'py':
             be, kw = PY_VARIANTS[b]
             return pybtex.format_from_string(text, style=a, output_backend=be, **kw)
@@ -1569,6 +1704,8 @@ def _engine_run(cid):
             r = ('raised', type(e).__name__, str(e)[:300])
     finally:
         pybtex.io.stderr = old; pybtex.io.stdout = oldo
+    if r[0] == 'ok' and isinstance(r[1], str) and r[1].startswith('BAD '):
+        return r[1][:400]
     return _dg((r, [(type(e).__name__, str(e)[:200]) for e in reports], buf.getvalue(), obuf.getvalue()))
 
 def impl_engines(arg):
@@ -1604,6 +1741,10 @@ def _fresh_table(ids=None):
 
 def _engine_name(cid):
     kind, dn, a, b, cap = ENGINE_CALLS[cid % len(ENGINE_CALLS)]
+    if kind == 'genbst':
+        return 'BibTeX engine with a generated style: scenario %s, %r' % (dn, a)
+    if kind == 'obj':
+        return 'one database object through %r' % ([OBJ_SUBCALLS[i] for i in OBJ_HISTORIES[a]],)
     if kind == 'py':
         s_ = 'pybtex.format_from_string(<%s>, style=%r, output_backend=%r, %r)' % (dn, a, PY_VARIANTS[b][0], PY_VARIANTS[b][1])
     elif kind == 'bst':
@@ -1622,6 +1763,8 @@ def oracle_engines(arg, out):
         return [('fresh-interpreter', str(fresh[-1]))]
     for i, (cid, dg) in enumerate(out):
         d = S(dg)
+        if d.startswith('BAD '):
+            fails.append(('engine-selfcheck', 'call %d (%s): %s' % (i, _engine_name(cid), d[4:])))
         if cid in first and first[cid][1] != d:
             fails.append(('engine-repeat', 'call %d repeats call %d (%s) but its output or reports differ' % (i, first[cid][0], _engine_name(cid))))
         first.setdefault(cid, (i, d))
@@ -1673,6 +1816,10 @@ def gen(tier, rng):
         """the quick tier's selection: every (database, style) of the Python engine with a rotating option set, also
         inside capture(); half of the light .bst runs, a third of the rest"""
         kind, dn, a, b, cap = ENGINE_CALLS[i]
+        if kind == 'genbst':
+            return True
+        if kind == 'obj':
+            return a < 4 or a % 2 == 0
         if kind == 'py':
             return cap == 1 or b == (dbi[dn] + PY_STYLES.index(a)) % len(PY_VARIANTS)
         if kind == 'bst':
@@ -1683,9 +1830,16 @@ def gen(tier, rng):
     for i in sel:                                        # the same database twice
         yield ('engines_twice', 3, [i, i])
     # the same style / .bst / writer on ANOTHER database first (state keyed on the style, the entry type, ...), then this one
+    gb = [i for i in sel if ENGINE_CALLS[i][0] == 'genbst']
+    for a in gb:                                         # the same style NAME, another directory / text / encoding first
+        for b in gb:
+            if a != b and ENGINE_CALLS[a][1] == ENGINE_CALLS[b][1]:
+                yield ('engines_after_other', 3, [b, a])
     groups = {}
     for i in sel:
         c = ENGINE_CALLS[i]
+        if c[0] in ('genbst', 'obj'):
+            continue
         groups.setdefault((c[0], c[2]) if tier == 'quick' else (c[0], c[2], c[3], c[4]), []).append(i)
     for key, ids in sorted(groups.items(), key=repr):
         for a in ids:
